@@ -137,12 +137,14 @@ structure Fd where
   eof : Bool
 deriving Repr
 
+/-- how many octets a `read(fd, p, n)` delivers when something is readable -/
+def Fd.count (fd : Fd) (n : Nat) : Nat :=
+  if fd.chunk = 0 then min fd.avail.length n else min (min fd.avail.length n) fd.chunk
+
 /-- `read(fd, p, n)`: the return value, the octets delivered, the fd afterwards -/
 def Fd.read (fd : Fd) (n : Nat) : Int × List Nat × Fd :=
   if fd.avail.isEmpty then ((if fd.eof then 0 else -1), [], fd)
-  else
-    let k := if fd.chunk = 0 then min fd.avail.length n else min (min fd.avail.length n) fd.chunk
-    ((k : Int), fd.avail.take k, { fd with avail := fd.avail.drop k })
+  else ((fd.count n : Nat), fd.avail.take (fd.count n), { fd with avail := fd.avail.drop (fd.count n) })
 
 /-- the part of `static struct dnload dnload` and the file-scope window that the read path uses -/
 structure Host where
@@ -170,62 +172,67 @@ def storeAt (buf : List Nat) (off : Nat) : List Nat → List Nat
   | [] => buf
   | b :: bs => storeAt (buf.set off b) (off + 1) bs
 
+/-- the head of `handle_buffer(buf_used_len)`:
+`buf_left = buf_used_len - (bufptr - buffer); if (buf_left <= 0) { memmove(buffer, buffer+1, buf_used_len-1); bufptr -= 1; buf_left = 1; }`
+→ the window, `bufptr - buffer`, `buf_left` -/
+def slide (used : Nat) (buffer : List Nat) (bufptr : Nat) : List Nat × Nat × Nat :=
+  if used ≤ bufptr then ((buffer.drop 1).take (used - 1) ++ buffer.drop (used - 1), bufptr - 1, 1)
+  else (buffer, bufptr, used - bufptr)
+
 /-- `handle_buffer(buf_used_len)` with `buf_used_len = sizeof(buffer)`: the host afterwards, the fd
 afterwards, `nbytes` -/
 def handleBuffer (c : Cfg) (h : Host) (fd : Fd) : Host × Fd × Int :=
-  let used := window
-  -- buf_left = buf_used_len - (bufptr - buffer); if (buf_left <= 0) { memmove(buffer, buffer+1, buf_used_len-1); bufptr -= 1; buf_left = 1; }
-  let (buffer, bufptr, bufLeft) :=
-    if used ≤ h.bufptr then ((h.buffer.drop 1).take (used - 1) ++ h.buffer.drop (used - 1), h.bufptr - 1, 1)
-    else (h.buffer, h.bufptr, used - h.bufptr)
+  let s := slide window h.buffer h.bufptr
   -- nbytes = read(dnload.serial_fd.fd, bufptr, buf_left)
-  let (nbytes, octets, fd') := fd.read bufLeft
-  let oob := h.oob || decide (bufptr + bufLeft > used)
-  let h1 : Host := { h with buffer := storeAt buffer bufptr octets, bufptr := bufptr, oob := oob }
+  let r := fd.read s.2.2
+  let h1 : Host := { h with buffer := storeAt s.1 s.2.1 r.2.1, bufptr := s.2.1,
+                            oob := h.oob || decide (s.2.1 + s.2.2 > window) }
   -- if (nbytes <= 0) return nbytes;
-  if nbytes ≤ 0 then (h1, fd', nbytes)
-  else if !h.expectHdlc then (h1, fd', nbytes)
+  if r.1 ≤ 0 then (h1, r.2.2, r.1)
+  else if !h.expectHdlc then (h1, r.2.2, r.1)
   else
     -- for (i = 0; i < nbytes; ++i) if (sercomm_drv_rx_char(bufptr[i]) == 0) printf("Dropping sample …")
-    ({ h1 with w := octets.foldl (World.rxOctet c) h1.w }, fd', nbytes)
+    ({ h1 with w := r.2.1.foldl (World.rxOctet c) h1.w }, r.2.2, r.1)
 
 /-- `!memcmp(buffer, table, sizeof(table))` -/
 def memEq (buffer table : List Nat) : Bool := buffer.take table.length == table
 
-/-- `handle_read()` (with `dnload.filename == NULL`, `dnload.do_chainload == 0`) -/
+/-- the `memcmp` chain of `handle_read()` (with `dnload.filename == NULL`, `dnload.do_chainload == 0`) -/
+def prompts (h : Host) : Host :=
+  if memEq h.buffer phonePrompt1 then
+    { h with expectHdlc := false, dnState := stWaitingPrompt2 }
+  else if memEq h.buffer phonePrompt2 then
+    -- osmo_fd_update_when(&dnload.serial_fd, 0, OSMO_FD_READ | OSMO_FD_WRITE)
+    { h with writeOn := true, dnState := stDownloading }
+  else if memEq h.buffer phoneAck then
+    -- osmo_fd_update_when(&dnload.serial_fd, 0, OSMO_FD_READ)
+    { h with writeOn := false, dnState := stWaitingPrompt1, expectHdlc := true }
+  else if memEq h.buffer phoneNack then
+    { h with writeOn := false, dnState := stWaitingPrompt1 }
+  else if memEq h.buffer phoneNackMagic then
+    { h with writeOn := false, dnState := stWaitingPrompt1 }
+  else if memEq h.buffer ftmtool then
+    { h with writeOn := false, dnState := stWaitingPrompt1 }
+  else h
+
+/-- `handle_read()`: `handle_buffer`, the prompts, `bufptr += nbytes` -/
 def handleRead (c : Cfg) (h : Host) (fd : Fd) : Host × Fd × Int :=
-  let (h, fd, nbytes) := handleBuffer c h fd
-  if nbytes ≤ 0 then (h, fd, nbytes)
+  let r := handleBuffer c h fd
+  if r.2.2 ≤ 0 then r
   else
-    let h :=
-      if memEq h.buffer phonePrompt1 then
-        { h with expectHdlc := false, dnState := stWaitingPrompt2 }
-      else if memEq h.buffer phonePrompt2 then
-        -- osmo_fd_update_when(&dnload.serial_fd, 0, OSMO_FD_READ | OSMO_FD_WRITE)
-        { h with writeOn := true, dnState := stDownloading }
-      else if memEq h.buffer phoneAck then
-        -- osmo_fd_update_when(&dnload.serial_fd, 0, OSMO_FD_READ)
-        { h with writeOn := false, dnState := stWaitingPrompt1, expectHdlc := true }
-      else if memEq h.buffer phoneNack then
-        { h with writeOn := false, dnState := stWaitingPrompt1 }
-      else if memEq h.buffer phoneNackMagic then
-        { h with writeOn := false, dnState := stWaitingPrompt1 }
-      else if memEq h.buffer ftmtool then
-        { h with writeOn := false, dnState := stWaitingPrompt1 }
-      else h
-    -- bufptr += nbytes
-    ({ h with bufptr := h.bufptr + nbytes.toNat }, fd, nbytes)
+    let h' := prompts r.1
+    ({ h' with bufptr := h'.bufptr + r.2.2.toNat }, r.2.1, r.2.2)
 
 /-- `while ((rc = handle_read()) > 0);` → the last `rc` (`fuel`: every round with `rc > 0` consumes an octet) -/
 def readLoop (c : Cfg) : Nat → Host → Fd → Host × Fd × Int
   | 0, h, fd => (h, fd, -1)
   | fuel + 1, h, fd =>
-    let (h', fd', rc) := handleRead c h fd
-    if rc > 0 then readLoop c fuel h' fd' else (h', fd', rc)
+    let r := handleRead c h fd
+    if r.2.2 > 0 then readLoop c fuel r.1 r.2.1 else r
 
 /-- `serial_read(fd, OSMO_FD_READ)`: the host, the fd, and whether `exit(2)` was called (`rc == 0`) -/
 def serialRead (c : Cfg) (h : Host) (fd : Fd) : Host × Fd × Bool :=
-  let (h', fd', rc) := readLoop c (fd.avail.length + 1) h fd
-  (h', fd', rc == 0)
+  let r := readLoop c (fd.avail.length + 1) h fd
+  (r.1, r.2.1, r.2.2 == 0)
 
 end OsmoVerif.Osmocon
